@@ -490,6 +490,57 @@ static int use(int n)
 }
 '''
 
+OC_PREAMBLE = b'''#include <stdbool.h>
+#import "h_zeta.h"
+#import "h_alpha.h"
+#define SQ(x) ((x) * (x))
+__attribute__((objc_root_class))
+@interface Root
++ (id)alloc;
+- (id)init;
+@end
+@protocol Sized
+- (int)area;
+@end
+@interface Shape : Root <Sized>
+{
+   int _w;
+   int _h;
+   int _tag;
+}
+@property (nonatomic, assign) int tag;
+- (id)initWithW:(int)w h:(int)h;
+- (int)scale:(int)k by:(int)m;
++ (int)count;
+@end
+@implementation Shape
+@synthesize tag = _tag;
+- (id)initWithW:(int)w h:(int)h
+{
+   self = [super init];
+   if (self) { _w = w; _h = h; }
+   return self;
+}
+- (int)area { return _w * _h; }
+- (int)scale:(int)k by:(int)m
+{
+   int (^blk)(int) = ^(int z) { return z * k + m; };
+   while (1) { if (++k > 10) break; }
+   return (blk([self area]) + self.tag);
+}
++ (int)count { return 3; }
+@end
+int use_shape(int n)
+{
+   Shape *s = [[Shape alloc] initWithW:n h:2];
+   s.tag = SQ(n);
+   SEL sel = @selector(scale:by:);
+   (void)sel;
+   if (n > 2 && n < 9) n++; else n--;
+   return [s scale:n by:[Shape count]] + [s area] + [[Shape alloc] initWithW:1 h:[s area]].tag;
+}
+'''
+
 JAVA_PREAMBLE = b'''import java.util.List;
 import java.util.ArrayList;
 import java.util.Map;
@@ -513,12 +564,14 @@ JAVA_MEMBERS = b'''   static int pre(int n)
 
 def program_text(lang, r, style='mixed', **kw):
     """A complete compilable program: preamble + generated functions.  -> bytes"""
-    P = gen(lang, r, **kw)
+    P = gen('C' if lang == 'OC' else lang, r, **kw)
     body, _ = P.render(r, style=style, indent=r.choice([0, 2, 3, 4, 8]))
     if lang == 'C':
         return C_PREAMBLE + body.replace(b'#include <stdbool.h>\n', b'', 1)
     if lang == 'CPP':
         return CPP_PREAMBLE + body
+    if lang == 'OC':
+        return OC_PREAMBLE + body.replace(b'#include <stdbool.h>\n', b'', 1)
     if lang == 'JAVA':
         # members of the preamble go inside class Gen, right after its opening brace
         marker = b'public class Gen'
